@@ -1,5 +1,5 @@
 (** C14 — no busy-spinning: the task is woken only for a reason *)
-From FB Require Import Base Syntax World SlotMap Fub QuietProofs.
+From FB Require Import Base Syntax World SlotMap Fub Unbounded Step UnboundedProofs StepProofs Reach QuietProofs QuietGroups.
 
 (** if every held child answers Pending without waking anything and no child waker is invoked
     (no injection), a poll of a group with L queued entries returns Pending, pops min(B, L) of
@@ -10,7 +10,8 @@ Theorem C14_quiet_poll :
   let '(f', pr, w') := poll_inner_no_remove P k f t w in
   pr = PPending /\ quiet_map k (tasks f') /\ noinj w' /\ blk f' = blk f
   /\ (exists kb', get_blk w' (blk f) = Some kb' /\ bqueue kb' = skipn (pB P) (bqueue kb))
-  /\ twakes (log w') = twakes (log w) + (if Nat.ltb (length (bqueue kb)) (pB P) then 0 else 1).
+  /\ twakes (log w') = twakes (log w) + (if Nat.ltb (length (bqueue kb)) (pB P) then 0 else 1)
+  /\ (forall b', b' <> blk f -> get_blk w' b' = get_blk w b').
 Proof. exact poll_quiet. Qed.
 Print Assumptions C14_quiet_poll.
 
@@ -37,3 +38,46 @@ Theorem C14_drop_does_not_wake :
   forall (f : fub) (w : world), twakes (log (fub_drop f w)) = twakes (log w).
 Proof. exact tw_fub_drop. Qed.
 Print Assumptions C14_drop_does_not_wake.
+
+(** the group loop of FuturesUnordered (mrg = false) / MergeUnbounded (mrg = true): if every
+    group is at rest (QL: quiet children, and nothing held or at most m entries queued) and
+    nobody invokes a child waker, one poll_next yields no item, leaves every group at rest with
+    at most m - B entries, and invokes no task waker at all when m < B (at most one per group
+    otherwise) *)
+Theorem C14_group_loop_quiet_poll :
+  forall (P : params) (mrg : bool) (u : fu) (t : nat) (w : world) (m : nat),
+  NoDup (blks (groups u)) -> noinj w -> Forall (QL mrg m w) (groups u) ->
+  let '(u', sp, w') := fu_poll_next P mrg u t w in
+  (forall tk c, sp <> SItem tk c) /\ noinj w' /\ NoDup (blks (groups u'))
+  /\ Forall (QL mrg (m - pB P) w') (groups u')
+  /\ twakes (log w') <= twakes (log w) + (if Nat.ltb m (pB P) then 0 else length (groups u)).
+Proof. exact fu_poll_quiet. Qed.
+Print Assumptions C14_group_loop_quiet_poll.
+
+(** repeated polling: after any run of polls with m < (number of polls + 1) * B, the next poll
+    invokes no task waker (and neither does any later one): poll number m / B + 1 is silent *)
+Theorem C14_consecutive_polls_reach_silence :
+  forall (P : params) (mrg : bool) (ts : list nat) (u : fu) (w : world) (m : nat),
+  NoDup (blks (groups u)) -> noinj w -> Forall (QL mrg m w) (groups u) ->
+  m < S (length ts) * pB P ->
+  let '(u1, w1) := polls P mrg ts u w in
+  forall t, let '(u', sp, w') := fu_poll_next P mrg u1 t w1 in
+            (forall tk c, sp <> SItem tk c) /\ twakes (log w') = twakes (log w1).
+Proof. exact quiet_polls_reach_silence. Qed.
+Print Assumptions C14_consecutive_polls_reach_silence.
+
+(** in every reachable state of every history: distinct blocks and the presence of each group's
+    block are invariants, and a ready queue never holds more entries than its block has slots,
+    so m may be taken as the largest block of the collection *)
+Theorem C14_reachable_quiet_collection_falls_silent :
+  forall (P : params), params_ok P ->
+  forall (ops : list op) (mrg : bool) (u : fu) (ts : list nat) (m : nat),
+  st_coll (reach P ops) = (if mrg then CMu u else CFu u) ->
+  (forall g, In g (groups u) -> quiet_map (gk mrg) (tasks g)) ->
+  (forall g kb, In g (groups u) -> get_blk (st_world (reach P ops)) (blk g) = Some kb -> bcap kb <= m) ->
+  m < S (length ts) * pB P ->
+  let '(u1, w1) := polls P mrg ts u (begin_op no_inj (st_world (reach P ops))) in
+  forall t, let '(u', sp, w') := fu_poll_next P mrg u1 t w1 in
+            (forall tk c, sp <> SItem tk c) /\ twakes (log w') = twakes (log w1).
+Proof. exact reachable_quiet_polls_reach_silence. Qed.
+Print Assumptions C14_reachable_quiet_collection_falls_silent.
